@@ -252,8 +252,18 @@ def do_check(pid, tier, seed):
             jobs.append((cmd, path, d["name"]))
     gen_stats = []
 
+    hung = []
+
     def rungen(job):
-        p = subprocess.run(job[0], stdout=subprocess.PIPE, stderr=subprocess.STDOUT, text=True, timeout=900)
+        try:
+            p = subprocess.run(job[0], stdout=subprocess.PIPE, stderr=subprocess.STDOUT, text=True, timeout=240 if tier == "quick" else 1200)
+        except subprocess.TimeoutExpired:
+            # the driver did not come back: some call of the code under test does not return (normally the whole
+            # generation takes a second).  That is C01's business; for every other property it is a tool problem.
+            hung.append(job)
+            if pid != "C01":
+                raise ToolError("driver did not finish (a call of the code under test hangs?): %s" % " ".join(job[0]))
+            return {}
         if p.returncode != 0:
             raise ToolError("driver failed: %s\n%s" % (" ".join(job[0]), p.stdout[-2000:]))
         last = [x for x in p.stdout.strip().splitlines() if x.startswith("{")]
@@ -261,10 +271,14 @@ def do_check(pid, tier, seed):
 
     with ThreadPoolExecutor(max_workers=16) as ex:
         gen_stats = list(ex.map(rungen, jobs))
+    jobs_ok = [j for j in jobs if j not in hung]
 
     # ---- 1b. un-validated stress (C01): panics and hangs only
     stress = None
     violations = []  # (replay path, text)
+    for job in hung:
+        violations.append((job[1], "a public call did not return within the driver's time limit (hang); the partial trace ends before the hanging call"))
+    jobs = jobs_ok
     if tp.get("stress_secs"):
         sp = os.path.join(wd, "stress.json")
         fp = os.path.join(wd, "fail-stress.ndjson")
